@@ -40,9 +40,9 @@ func plans(tier string, lOverride int) []plan {
 		}
 		return false
 	})
-	lf, li, lia, lir, ls, lm, lt := 4, 3, 3, 4, 3, 4, 4
+	lf, li, lia, lir, ls, lm, lt, lc := 4, 3, 3, 4, 3, 4, 4, 4
 	if tier == "thorough" {
-		li, lir, lm, lt = 4, 5, 5, 5
+		li, lir, lm, lt, lc = 4, 5, 5, 5, 5
 	}
 	if lOverride > 0 {
 		lf = lOverride
@@ -65,6 +65,9 @@ func plans(tier string, lOverride int) []plan {
 		plan{Name: "metadata values {\"\",v1,v2} x keys {k1,k2} x targets {create, comment, comment carrying k1 itself}: full compile, then commit and reload", Mode: "reload", Alphabet: MetaAlphabet(), L: lm},
 		plan{Name: "metadata values: incremental (cache.BugCache), snapshot forced after every position", Mode: "incremental", Alphabet: MetaAlphabet(), L: lm, ForceAll: true},
 	)
+	// two authors interleaved in uncommitted batches, commits at the cuts
+	ps = append(ps, plan{Name: "authors {A,B} x {set-title, add-comment, edit of the other author's latest comment, close, open} staged through cache.BugCache over an in-memory repository, Commit at the end / at every cut / at each single cut: maintained snapshot before and after the commit, compile from scratch and reload after it",
+		Mode: "commit", Alphabet: AuthorAlphabet(), L: lc})
 	// timestamps independent of the position: later-but-older operations
 	ta := TimeAlphabet()
 	ps = append(ps,
@@ -186,6 +189,14 @@ func (x *explorer) visit(seq []Sym, l *local) {
 		return
 	}
 	forces := []int{0}
+	if x.p.Mode == "commit" && len(seq) > 1 {
+		// commit masks: only the final commit (0), a commit at every cut, one commit at each single cut
+		n := len(seq)
+		forces = append(forces, 1<<(n-1)-1)
+		for k := 0; k < n-1 && n > 2; k++ {
+			forces = append(forces, 1<<k)
+		}
+	}
 	if x.p.Mode == "incremental" && x.p.ForceAll {
 		forces = forces[:0]
 		for f := 0; f <= len(seq)-1 || f == 0; f++ {
@@ -411,7 +422,7 @@ func Main(args []string) {
 		h := st.hits[k]
 		n := Reproductions(env, h.c, h.found.Oracle, h.found.Sig, 5)
 		rep.Report(evidence.Report{Oracle: h.found.Oracle, Sig: h.found.Sig,
-			Detail: fmt.Sprintf("create%s ; %s (mode %s, snapshot forced after %d): %s (reproduced %d/5)", map[bool]string{true: "+files", false: ""}[h.c.CreateFiles]+createAtString(h.c.CreateAt), seqString(h.c.Seq), h.c.Mode, h.c.ForceAt, h.found.Detail, n),
+			Detail: fmt.Sprintf("create%s ; %s (mode %s, snapshot forced after / commit mask %d): %s (reproduced %d/5)", map[bool]string{true: "+files", false: ""}[h.c.CreateFiles]+createAtString(h.c.CreateAt), seqString(h.c.Seq), h.c.Mode, h.c.ForceAt, h.found.Detail, n),
 			Replay: map[string]any{"case": h.c, "reproduced_of_5": n}, Count: h.count})
 	}
 	cov := map[string]any{
@@ -465,6 +476,7 @@ func samples(env *Env) []any {
 		{Mode: "full", Seq: []string{"force(+b+a)/A", "force(+c)/B", "change(-a)/A", "edit(create)/B"}},
 		{Mode: "full", Seq: []string{"add-comment/B", "edit(comment1)/A", "edit(unknown)/A", "set-metadata(create,o)/A"}},
 		{Mode: "incremental", Seq: []string{"set-metadata(create,x)/A", "set-metadata(create,x)/B", "close/B"}},
+		{Mode: "commit", ForceAt: 0, Seq: []string{"set-title/by-B", "set-title/by-A", "edit(latest comment of the other author)/by-B"}},
 		{Mode: "reload", CreateAt: timeBase, Seq: []string{"add-comment@T+10/A", "edit(comment1)@T+0/A", "edit(comment1)@T-10/A", "set-title@T-10/A"}},
 	} {
 		syms, err := lookup(c.Seq)
